@@ -83,6 +83,7 @@ class JobObs:
         self.error = None             # (type name, str) for failures
         self.impl_call_hash = None    # job.call_hash after the finishing handler
         self.crash = None
+        self.adopt_logged = False
 
 
 class Observer:
@@ -91,7 +92,7 @@ class Observer:
         self.jobs: dict[str, JobObs] = {}
         self.order: list[str] = []
         self.fin_order: list[str] = []
-        self.apply_tags_calls = []     # (parent job id, value_hash|None, tags, job_tags, execution_tags)
+        self.events = []               # model events in order: start / submit / adopt / finish / died
         self.install()
 
     def obs(self, job):
@@ -107,10 +108,22 @@ class Observer:
         orig_exec_main = s._exec_job_main_thread
 
         def _exec_main(job, eval_args):
+            first = job.id not in O.jobs
             o = O.obs(job)
+            if first:
+                try:
+                    o.prov = bool(job.recording_provenance())
+                except Exception:
+                    o.prov = True
+                O.events.append(("start", job.id))
+            nsub = O.tr.ex.nsubmits.get(job.id, 0)
             try:
                 return orig_exec_main(job, eval_args)
             finally:
+                if O.tr.ex.nsubmits.get(job.id, 0) > nsub:
+                    from redun.scheduler import CacheScope
+                    scope = CacheScope(job.get_options().get("cache_scope", CacheScope.BACKEND))
+                    O.events.append(("submit", job.id, scope == CacheScope.NONE))
                 o.prov = bool(job.recording_provenance())
                 o.opt_tags = list(job.get_option("tags", []) or [])
                 if job.args is not None and o.args_hash is None:
@@ -134,6 +147,8 @@ class Observer:
             res, cached, ch = orig_get_cache(job)
             if cached and ch:
                 O.obs(job).cache_hash = ch
+                O.events.append(("adopt", job.id, ("cache", ch)))
+                O.obs(job).adopt_logged = True
             return res, cached, ch
         s._get_cache = _get_cache
 
@@ -162,13 +177,42 @@ class Observer:
                     o.result_hash = reg.get_hash(x)
                 else:
                     o.error = (type(x).__name__, str(x))
+                # model events: a collapsed job carries its twin's hash from the moment the twin settled
+                if o.collapsed_into and job.call_hash and not o.adopt_logged:
+                    O.events.append(("adopt", job.id, ("twin", o.collapsed_into)))
+                    o.adopt_logged = True
+                fin_ev = {"job": job.id, "ok": kind == "resolve", "cached": bool(job.was_cached),
+                          "children": [c.id for c in job.child_jobs],
+                          "vtags": [(vh, list(ts)) for vh, ts in job.value_tags],
+                          "jtags": list(job.get_option("tags", []) or []) + list(job.job_tags) + list(kw.get("job_tags", []) or []),
+                          "etags": list(job.execution_tags), "result": o.result_hash}
+                O.events.append(("finish", fin_ev))
+                err_hashes = []
+                orig_rv = s.backend.record_value
+
+                def record_value(value, data=None):
+                    h = orig_rv(value, data) if data is not None else orig_rv(value)
+                    if type(value).__name__ == "ErrorValue":
+                        err_hashes.append(h)
+                    return h
+                if kind == "reject":
+                    s.backend.record_value = record_value
                 try:
                     return orig(job, x, *a, **kw)
                 except BaseException as e:  # noqa
                     o.crash = (type(e).__name__, str(e)[:300])
+                    O.events.append(("died", job.id))
                     raise
                 finally:
+                    if kind == "reject":
+                        s.backend.record_value = orig_rv
+                        fin_ev["result"] = err_hashes[-1] if err_hashes else None
                     o.impl_call_hash = job.call_hash
+                    # twins of this job adopt its hash when it settles (promise callbacks run inside job.resolve/reject)
+                    for t in O.jobs.values():
+                        if t.collapsed_into == job.id and not t.adopt_logged and not o.crash:
+                            O.events.append(("adopt", t.id, ("twin", job.id)))
+                            t.adopt_logged = True
             return handler
         s._resolve_job_main_thread = fin("resolve", s._resolve_job_main_thread)
         s._reject_job_main_thread = fin("reject", s._reject_job_main_thread)
@@ -307,6 +351,12 @@ def check_db(runs, db, type_registry=None, strict_values=True):
                         add("noprov:failed-has-hash", f"failed job {o.n} without provenance has a call hash")
                     continue
                 h = o.impl_call_hash
+                if o.known_at_entry and h != o.known_at_entry:
+                    # the job is a replay (collapsed duplicate / CSE hit) of a failed call whose node is recorded,
+                    # yet a second node (with the replay's own, empty, child list) is recorded for it
+                    add("twin:failed-duplicate-rerecorded",
+                        f"failed job {o.n} replays call node {o.known_at_entry[:8]} of the same call but is recorded as "
+                        f"another node {str(h)[:8]} with {len(ch)} children")
                 n = nodes.get(h) if h else None
                 if n is None:
                     add("failed:node-missing", f"failed job {o.n} has no recorded call node ({str(h)[:8]})")
@@ -623,3 +673,88 @@ def gen_spec20(rng: random.Random, depth=3, pool=None, counter=None, p_noprov=0.
 
 def spec_size(spec):
     return 1 + sum(spec_size(c) for c in spec[3])
+
+
+# ------------------------------------------------------------------ model case (Coq term) for one database
+def cq_h(h) -> str:
+    return "(bs [" + ";".join(str(x) for x in h.encode()) + "]%N)"
+
+
+def cq_b(b: bytes) -> str:
+    return "(bs [" + ";".join(str(x) for x in b) + "]%N)"
+
+
+def cq_l(items) -> str:
+    return "[" + "; ".join(items) + "]"
+
+
+def cq_on(x) -> str:
+    return "None" if x is None else f"(Some {x}%nat)"
+
+
+def model_case(runs, db, cfg_name="gen_cfg"):
+    """The Coq bool `db_agrees tbl cfg events <tables of the dump> dead`.
+    Returns (term, stats). Ids are interned; hashes stay the real hex strings."""
+    jid, eid, tid = {}, {}, {}
+    J = lambda x: jid.setdefault(x, len(jid))
+    EX = lambda x: eid.setdefault(x, len(eid))
+    T = lambda k, v: tid.setdefault((k, jtxt(v)), len(tid))
+    evs, table = [], {}
+    dead = False
+    skip_tags = set()
+    for ri, run in enumerate(runs):
+        if ri:
+            evs.append("ENewRun")
+        dead = False
+        ob = run["obs"]
+        if run["exec_id"]:
+            for k, v in run["exec_tags"]:
+                skip_tags.add(("Execution", run["exec_id"], k, jtxt(v)))
+        for e in ob.events:
+            if e[0] == "start":
+                o = ob.jobs[e[1]]
+                tt = cq_l([f"{T(k, v)}%nat" for k, v in o.task_tags])
+                evs.append(f"EStart {{| ji_id := {J(o.id)}%nat; ji_parent := {cq_on(J(o.parent) if o.parent else None)}; "
+                           f"ji_exec := {EX(o.exec_id)}%nat; ji_task := {cq_h(o.task_hash)}; ji_prov := {'true' if o.prov else 'false'}; "
+                           f"ji_task_tags := {tt} |}}")
+            elif e[0] == "submit":
+                evs.append(f"ESubmit {J(e[1])}%nat {'true' if e[2] else 'false'}")
+            elif e[0] == "adopt":
+                kind, x = e[2]
+                evs.append(f"EAdopt {J(e[1])}%nat " + (f"(ACache {cq_h(x)})" if kind == "cache" else f"(ATwin {J(x)}%nat)"))
+            elif e[0] == "died":
+                dead = True
+            elif e[0] == "finish":
+                f = e[1]
+                o = ob.jobs[f["job"]]
+                res = f["result"] or ("0" * 40)
+                vt = cq_l([f"({cq_h(vh)}, {cq_l([f'{T(k, v)}%nat' for k, v in ts])})" for vh, ts in f["vtags"]])
+                jt = cq_l([f"{T(k, v)}%nat" for k, v in f["jtags"]])
+                et = cq_l([f"{T(k, v)}%nat" for k, v in f["etags"]])
+                evs.append(f"EFinish {J(f['job'])}%nat {'true' if f['ok'] else 'false'} {'true' if f['cached'] else 'false'} "
+                           f"{cq_h(o.args_hash or '0' * 40)} {cq_h(res)} {cq_l([f'{J(c)}%nat' for c in f['children']])} {vt} {jt} {et}")
+                # pre-image table: what the model will ask the hash function for
+                if o.args_hash and (f["ok"] or o.prov):
+                    ch = [hc for _, hc in o.children_at_fin if hc]
+                    pre = call_pre(o.task_hash, o.args_hash, res, ch)
+                    table[pre] = H(pre)
+    tbl = cq_l([f"({cq_b(p)}, {cq_h(h)})" for p, h in table.items()])
+    cn = cq_l([f"{{| cn_hash := {cq_h(n['call_hash'])}; cn_task := {cq_h(n['task_hash'])}; cn_args := {cq_h(n['args_hash'])}; "
+               f"cn_value := {cq_h(n['value_hash'])} |}}" for n in db["call_node"]])
+    ed = cq_l([f"({cq_h(e['parent_id'])}, {cq_h(e['child_id'])}, {e['call_order']}%nat)" for e in db["call_edge"]])
+    jb = cq_l([f"{{| jr_id := {J(r['id'])}%nat; jr_parent := {cq_on(J(r['parent_id']) if r['parent_id'] else None)}; "
+               f"jr_exec := {EX(r['execution_id'])}%nat; jr_task := {cq_h(r['task_hash'])}; "
+               f"jr_call := {'None' if r['call_hash'] is None else '(Some ' + cq_h(r['call_hash']) + ')'}; "
+               f"jr_cached := {'true' if r['cached'] else 'false'}; jr_ended := {'true' if r['end_time'] is not None else 'false'} |}}"
+               for r in db["job"]])
+    ex = cq_l([f"({EX(r['id'])}%nat, {J(r['job_id'])}%nat)" for r in db["execution"] if r["job_id"] is not None])
+    tg = []
+    for t in db["tag"]:
+        key = (t["entity_type"], t["entity_id"], t["key"], jtxt(json.loads(t["value"])))
+        if key in skip_tags or t["entity_type"] == "CallNode":
+            continue
+        ent = {"Value": lambda x: f"EntValue {cq_h(x)}", "Task": lambda x: f"EntTask {cq_h(x)}",
+               "Job": lambda x: f"EntJob {J(x)}%nat", "Execution": lambda x: f"EntExec {EX(x)}%nat"}[t["entity_type"]](t["entity_id"])
+        tg.append(f"({ent}, {T(t['key'], json.loads(t['value']))}%nat)")
+    term = (f"db_agrees {tbl} {cfg_name} {cq_l(evs)} {cn} {ed} {jb} {ex} {cq_l(tg)} {'true' if dead else 'false'}")
+    return term, {"events": len(evs), "nodes": len(db["call_node"]), "jobs": len(db["job"]), "tags": len(tg), "dead": dead}
